@@ -8,6 +8,7 @@
   a valid index of the axis.
 -/
 import Scico.Proofs.Shape
+import Scico.Proofs.ShapeExt
 import Scico.Proofs.OpAlgReject
 
 namespace Scico.Props.C12
@@ -71,6 +72,53 @@ example : selected 5 ⟨none, none, some (-1)⟩ = some [4, 3, 2, 1, 0] := by de
 example : sliceLen 5 ⟨none, none, some (-1)⟩ = some 5 := by decide
 example : selected 6 ⟨some (-8), some 5, some 2⟩ = some [0, 2, 4] := by decide
 
+
+/-! ### stacking / collapse rules (`scico/operator/_stack.py`, after fixes/opalg-13) and `indexed_shape` -/
+
+/-- **Collapse rules.**  A sequence of shapes is *stacked* into the plain shape `(N, *S)` exactly when
+    collapsing is allowed and all of them are one plain shape `S` (then the number of elements is
+    preserved); it is *rejected* (twice-nested) exactly when it is not stacked and some shape is a
+    BlockArray shape; otherwise it becomes the BlockArray shape of the given blocks. -/
+theorem C12_collapse_spec (s : NShape) (rest : List NShape) (allow : Bool) :
+    (∀ d, collapseShapes (s :: rest) allow = some (.stacked d)
+        ↔ (allow = true ∧ ∃ dims, s = .plain dims ∧ (∀ t ∈ rest, t = s) ∧ d = (rest.length + 1) :: dims))
+    ∧ (collapseShapes (s :: rest) allow = none
+        ↔ (¬ (isCollapsible (s :: rest) = true ∧ allow = true) ∧ ∃ t ∈ s :: rest, t.isNested = true))
+    ∧ (∀ d, collapseShapes (s :: rest) allow = some (.stacked d)
+        → prodList d = ((s :: rest).map shapeToSize).foldr (· + ·) 0) :=
+  ⟨fun d => collapse_stacked_iff s rest allow d, collapse_error_iff s rest allow,
+   fun d h => collapse_stacked_size s rest allow d h⟩
+
+/-- FULL STATEMENT, *not claimed as a theorem*: the loop of `indexed_shape` (model `indexedShape`)
+    computes NumPy's basic-indexing shape (`indexSpec`) for every shape and every index tuple with
+    at most one `Ellipsis`.  It is tied exhaustively on small scopes by the check; what is proved
+    is `C12_indexedShape_partial`. -/
+def C12_indexedShape_spec_stmt : Prop :=
+  ∀ (shape : List Nat) (idx : List Idx), (idx.filter (· = .ellipsis)).length ≤ 1 →
+    indexedShape shape idx = indexSpec shape idx
+
+/-- proved part: the empty index returns the shape itself, and an index with more integer/slice
+    entries than axes is rejected by the code and by the specification alike -/
+theorem C12_indexedShape_partial (shape : List Nat) :
+    indexedShape shape [] = some shape ∧ indexSpec shape [] = some shape
+    ∧ ∀ idx : List Idx, (idx.filter Idx.consumes).length > shape.length →
+        indexedShape shape idx = none ∧ indexSpec shape idx = none := by
+  refine ⟨?_, ?_, ?_⟩
+  · simp only [indexedShape, List.filter_nil, List.length_nil, indexedLoop]
+    have : ∀ l : List Nat, (l.map some).filterMap id = l := by
+      intro l; induction l with
+      | nil => rfl
+      | cons a l ih => simp [List.filterMap_cons, ih]
+    simp [this]
+  · simp [indexSpec, indexWalk]
+  · intro idx h
+    simp [indexedShape, indexSpec, h]
+
+example : indexedShape [3, 4] [.newaxis, .slice ⟨some 0, some 2, none⟩] = some [1, 2, 4] := by decide
+example : indexSpec [3, 4] [.newaxis, .slice ⟨some 0, some 2, none⟩] = some [1, 2, 4] := by decide
+example : indexedShape [2, 3, 4] [.ellipsis, .int (-1)] = some [2, 3] := by decide
+example : collapseShapes [.plain [2, 3], .plain [2, 3]] true = some (.stacked [2, 2, 3]) := by decide
+example : collapseShapes [.nested [[2], [3]], .nested [[2], [3]]] true = none := by decide
 
 /-! ## Part 2 — declared metadata of derived operators (engine OpAlg, repaired tree) -/
 
